@@ -1,4 +1,5 @@
 // Generates `dispatch(name)` for the native replay build: maps "module::harness" to the function.
+// A harness is any `fn name()` that directly follows `proof! {` / `kernel_proof! {` (attributes allowed in between).
 use std::{env, fs, path::Path};
 
 fn main() {
@@ -11,20 +12,26 @@ fn main() {
             continue;
         };
         let src = fs::read_to_string(format!("src/{m}.rs")).unwrap();
-        let mut in_proof = false;
-        for l in src.lines() {
-            let t = l.trim();
-            if t.starts_with("proof! {") || t.starts_with("kernel_proof! {") {
-                in_proof = true;
-                continue;
-            }
-            if in_proof && t.starts_with("fn ") {
-                if let Some(name) = t[3..].split('(').next() {
-                    arms.push_str(&format!(
-                        "        \"{m}::{name}\" => {{ crate::{m}::{name}(); true }}\n"
-                    ));
+        let mut rest = src.as_str();
+        while let Some(pos) = rest.find("proof! {") {
+            rest = &rest[pos + "proof! {".len()..];
+            // skip whitespace and #[...] attributes
+            let mut s = rest.trim_start();
+            while s.starts_with("#[") {
+                match s.find(']') {
+                    Some(e) => s = s[e + 1..].trim_start(),
+                    None => break,
                 }
-                in_proof = false;
+            }
+            if let Some(after) = s.strip_prefix("fn ") {
+                if let Some(name) = after.split('(').next() {
+                    let name = name.trim();
+                    if !name.is_empty() && name.chars().all(|c| c.is_alphanumeric() || c == '_') {
+                        arms.push_str(&format!(
+                            "        \"{m}::{name}\" => {{ crate::{m}::{name}(); true }}\n"
+                        ));
+                    }
+                }
             }
         }
     }
